@@ -19,6 +19,7 @@ import (
 	"encoding/json"
 	"fmt"
 	"math/rand"
+	"os"
 	"reflect"
 	"strings"
 	"sync"
@@ -85,14 +86,17 @@ func suiteOf(name string) network.Suite {
 // ---- key pool ----------------------------------------------------------------------
 
 var poolMu sync.Mutex
-var pools = map[string][]*key.Pair{}
+var pools = map[string]map[int]*key.Pair{}
 
 func kp(s network.Suite, i int) *key.Pair {
 	poolMu.Lock()
 	defer poolMu.Unlock()
 	name := s.String()
-	for len(pools[name]) <= i {
-		pools[name] = append(pools[name], key.NewKeyPair(s))
+	if pools[name] == nil {
+		pools[name] = map[int]*key.Pair{}
+	}
+	if pools[name][i] == nil {
+		pools[name][i] = key.NewKeyPair(s)
 	}
 	return pools[name][i]
 }
@@ -480,6 +484,9 @@ func decodeOuter(d *dumper, s network.Suite, buf []byte) (lit string, kind strin
 	T := v.Elem().FieldByName("T").Bytes()
 	ro, _ := v.Elem().FieldByName("Ro").Interface().(*onet.Roster)
 	inner, ik := decodeTM(d, s, T)
+	if ro == nil {
+		ik = "noroster-" + ik
+	}
 	return fmt.Sprintf("(DSome (%s, %s))", inner, d.roster(ro)), "outer-" + ik
 }
 
@@ -878,10 +885,19 @@ func generate(rng *rand.Rand, tier string) []interface{} {
 			kind = "binary"
 		}
 		ins = append(ins, input{Kind: kind, Mut: ms, Roster: rosterSpec{Members: seqInts(n), Svc: i%5 == 0},
-			Tree: treeSpec{Shape: randomShape(rng, n, i%3), Place: seqInts(n)}})
+			Tree: treeSpec{Shape: randomShape(rng, n, i%3), Place: seqInts(n), NoRoster: kind == "binary" && i%20 == 1}})
 	}
 	ins = append(ins, genProp(rng, tier)...)
 	ins = append(ins, genHist(rng, tier)...)
+	if only := os.Getenv("VERIF_C06_ONLY"); only != "" { // development aid
+		var sel []interface{}
+		for _, x := range ins {
+			if x.(input).Kind == only {
+				sel = append(sel, x)
+			}
+		}
+		return sel
+	}
 	return ins
 }
 
